@@ -127,6 +127,10 @@ func init() {
 	}
 	c06.quickRuns = 384
 	c06.thoroughRuns = 8000
+	// The process-wide caches are called from every underlay's reader goroutine. The simulator
+	// runs on one P, so a missing lock cannot corrupt anything here; a sixth of the runs is
+	// repeated under the race detector instead and any race inside pkg/replay counts.
+	c06.race, c06.raceFrames = true, "pkg/replay"
 	_ = time.Second
 }
 
@@ -219,7 +223,7 @@ func genQuotaSpec(seed uint64, tier string) *spec.RunSpec {
 func init() {
 	register(&propDef{
 		id: "C19", level: "exploration", quickRuns: 96, thoroughRuns: 2000, wallPerRun: 5 * time.Minute,
-		rule:        "Two scenarios. (1) Counter histories under the virtual clock: 1100-3600 (thorough: up to 10000) operations over {Add d (bursts inside one millisecond), Sleep (1 us .. 30 days, straddling the 2 s / 2 min / 2 h / 8 d roll-up ages), Load, DeltaBetween(window), dump->restart->load of the counter, DumpMetricsNow + LoadMetricsFromDump with an intact or torn file}; model = list of (time, delta); after every step Load = sum, history time-ordered, sum(history) = total, every window within [increments in (t1+24h, t2], increments in (t1, t2+24h)] and <= total, reload never decreases a total. (2) End to end on the real client/server stack: a user with a 1-2 MB/1-30 day quota moves a chosen volume (well below, just below, between, just above, well above the allowance) in phase 1; phase 2 opens new sessions for that user and for users without / with a large quota, both handshake modes, TCP and UDP, also concurrently with the accounting. Oracle: per user UploadBytes/DownloadBytes equal the bytes the server application read/wrote; a session opened when >= (M+1) MiB were counted is refused with the quota status on the wire and is never returned by Server.Accept; a session opened when <= M x 10^6 bytes were counted, and every session of other users, is served.",
+		rule:        "Two scenarios. (1) Counter histories under the virtual clock: 1100-3600 (thorough: up to 10000) operations over {Add d (bursts inside one millisecond), Sleep (1 us .. 30 days, straddling the 2 s / 2 min / 2 h / 8 d roll-up ages), Load, DeltaBetween(window), dump->restart->load of the counter, DumpMetricsNow + LoadMetricsFromDump with an intact or torn file}; model = list of (time, delta); after every step Load = sum, history time-ordered, sum(history) = total, every window within [increments in (t1+24h, t2], increments in (t1, t2+24h)] and <= total, reload never decreases a total. (2) End to end on the real client/server stack: a user with a 1-2 MB/1-30 day quota moves a chosen volume (well below, just below, between, just above, well above the allowance) in phase 1; phase 2 opens new sessions for that user and for users without / with a large quota, both handshake modes, TCP and UDP, also concurrently with the accounting. Oracle: per user UploadBytes/DownloadBytes equal the bytes the server application read/wrote; a session opened when >= (M+1) MiB were counted is refused with the quota status on the wire and is never returned by Server.Accept; a session opened when <= M x 10^6 bytes were counted, and every session of other users, is served. The last three ToMetricPB snapshots are held across later increments and compactions (what a dump or an RPC holds while it serialises) and must keep their value and a history that sums to it.",
 		assumptions: []string{"the allowance is interpreted loosely (refusal required from (M+1) MiB, service required up to M x 10^6 bytes; in between either)", "the dump file is a real temporary file; torn writes are emulated by truncating it"},
 		components:  realComponents,
 		gen: func(master uint64, idx int, tier string) *spec.RunSpec {
